@@ -568,8 +568,25 @@ def make_classes(ctx: Ctx) -> Dict[str, type]:
                             order.agent_id = ags[int(rw["owner"]) % len(ags)].agent_id
                     mon.probe("order_rewritten_by_hook")
 
+        def _maybe_arm(self, simulator, trigger):
+            # a rule that arms itself: on the n-th occurrence it sees, it registers one more hook of its own
+            # while the run is in progress (EventHook + Simulator._add_event, what hook_registration feeds)
+            arm = self.spec.get("arm")
+            if not arm or arm.get("trigger") != trigger or getattr(self, "_armed", False):
+                return
+            self._n_arm = getattr(self, "_n_arm", 0) + 1
+            if self._n_arm < int(arm.get("nth", 1)):
+                return
+            self._armed = True
+            h = arm["hook"]
+            hook = EventHook(event=self, hook_type=h["kind"], is_before=bool(h["before"]),
+                             time=None if h.get("times") is None else list(h["times"]))
+            simulator._add_event(hook)
+            mon.probe_armed(self.name, h)
+
         def hooked_after_order(self, simulator, order_log):
             mon.probe_call(self.name, "order", False, order_log)
+            self._maybe_arm(simulator, "order_after")
 
         def hooked_before_cancel(self, simulator, cancel):
             mon.probe_call(self.name, "cancel", True, cancel)
@@ -579,6 +596,7 @@ def make_classes(ctx: Ctx) -> Dict[str, type]:
 
         def hooked_after_execution(self, simulator, execution_log):
             mon.probe_call(self.name, "execution", False, execution_log)
+            self._maybe_arm(simulator, "execution")
             br = self.spec.get("breaker")
             if br:
                 # a user-written circuit breaker: after its k-th fill it switches matching off for the running
@@ -591,6 +609,24 @@ def make_classes(ctx: Ctx) -> Dict[str, type]:
 
         def hooked_before_session(self, simulator, session):
             mon.probe_call(self.name, "session", True, session)
+            sw = self.spec.get("sweep")
+            if sw:
+                # an opening rule that acts on the books itself before the session begins: cancels resting orders
+                # and posts a quote through the markets' own entry points (records arise between two sessions)
+                for market in simulator.markets:
+                    if isinstance(market, IndexMarket):
+                        continue
+                    live = [o for o in list(market.buy_order_book.priority_queue) + list(market.sell_order_book.priority_queue)]
+                    live.sort(key=lambda o: o.order_id)
+                    for o in live[:int(sw.get("cancel", 0))]:
+                        market._cancel_order(cancel=Cancel(order=o))
+                    if sw.get("quote") and simulator.agents:
+                        ag = simulator.agents[0]
+                        if ag.is_market_accessible(market.market_id):
+                            market._add_order(order=Order(agent_id=ag.agent_id, market_id=market.market_id, is_buy=bool(sw.get("buy", True)),
+                                                          kind=LIMIT_ORDER, volume=1,
+                                                          price=market.get_market_price() * (0.9 if sw.get("buy", True) else 1.1)))
+                mon.probe("books_swept_before_session")
 
         def hooked_after_session(self, simulator, session):
             mon.probe_call(self.name, "session", False, session)
